@@ -103,6 +103,68 @@ func VerifHarness_C05_O1() {
 	verifReach("end")
 }
 
+// verifFrameFailStore makes one SetFrame call fail (a transient database error
+// inside the consensus pass, i.e. AFTER the self-event was stored).
+type verifFrameFailStore struct {
+	*hg.InmemStore
+	armed bool
+}
+
+func (s *verifFrameFailStore) SetFrame(f *hg.Frame) error {
+	if s.armed {
+		s.armed = false
+		return fmt.Errorf("transient store error")
+	}
+	return s.InmemStore.SetFrame(f)
+}
+
+// C05/O1c — a failure AFTER the self-event was stored (the consensus pass that
+// follows the insertion fails once): the call reports the error, nothing is
+// lost from the pool, and the node does not go on to place the same
+// transactions in a second self-event.
+func VerifHarness_C05_O1c() {
+	vc := verifNewCore(1, 0)
+	c := vc.c
+	c.setHeadAndSeq()
+	fs := &verifFrameFailStore{InmemStore: vc.store}
+	c.hg.Store = fs
+	failAt := verifChoice("frameWriteFailsAtStep", 5)
+	placed := map[string]int{}
+	for s := 0; s < 5; s++ {
+		tx := []byte{byte(0xA0 + s), verifNondetByte(fmt.Sprintf("tx%d", s))}
+		c.addTransactions([][]byte{tx})
+		if s == failAt {
+			fs.armed = true
+		}
+		seqBefore := c.seq
+		err := c.addSelfEvent("")
+		hitFailure := s == failAt && !fs.armed
+		fs.armed = false
+		_ = hitFailure
+		if err != nil {
+			// (after such a failure the unchanged code keeps refusing further
+			// self-events until its head is re-read from the store; that is a
+			// liveness matter outside C05 and is not asserted here)
+			verifAssert(fmt.Sprintf("step%d-failed-call-keeps-the-pool", s), len(c.transactionPool) >= 1)
+			verifAssert(fmt.Sprintf("step%d-failed-call-does-not-advance-the-head", s), c.seq == seqBefore)
+		}
+	}
+	// count in how many stored self-events each submitted transaction was placed
+	evs, _ := vc.store.ParticipantEvents(vc.peers[0].PubKeyString(), -1)
+	for _, h := range evs {
+		ev, _ := vc.store.GetEvent(h)
+		for _, t := range ev.Transactions() {
+			if len(t) == 2 {
+				placed[string([]byte{t[0]})]++
+			}
+		}
+	}
+	for s := 0; s < 5; s++ {
+		verifAssert(fmt.Sprintf("tx%d-placed-in-at-most-one-self-event", s), placed[string([]byte{byte(0xA0 + s)})] <= 1)
+	}
+	verifReach("end")
+}
+
 // C05/O1b — aliasing: a later submission never alters the bytes or length of a
 // transaction slice already handed over to an event (shared backing array).
 func VerifHarness_C05_O1b() {
